@@ -9,7 +9,8 @@ package main
 //	step     the real EnsureRoutes (a fresh provider built from the *current* ref list, as the rollout
 //	         controller does on every reconcile); "fail": k = the API server refuses the k-th (0-based)
 //	         write of this call and every later one (LogClient.FailAt).  After a successful call the same
-//	         call is repeated on a fault-free client (idempotence) and every script is run once more on the
+//	         call is repeated on a client that refuses every write (idempotence: same objects, done, and not
+//	         a single Update issued) and every script is run once more on the
 //	         configuration the user last wrote for that ref (statelessness reference)
 //	fin      the real Finalise, same fault model
 //	write    the user deletes and re-creates / replaces the object of ref i from a manifest (no provider annotation)
@@ -182,10 +183,12 @@ func cuRunHist(raw json.RawMessage) interface{} {
 			objs := snapshot(active)
 			rec["objs"] = objs
 			if err == nil {
-				ctrl2, _ := custom.NewCustomController(cli, c)
+				lc2 := NewLogClient(cli)
+				lc2.FailAt = 0 // the repeated call must not attempt a single write: every write would fail
+				ctrl2, _ := custom.NewCustomController(lc2, c)
 				done2, err2 := ctrl2.EnsureRoutes(ctx, strategy)
 				rec["res2"] = cuRes(done2, err2)
-				rec["same2"] = same(objs, snapshot(active))
+				rec["same2"] = same(objs, snapshot(active)) && len(lc2.Log) == 0
 				fresh := make([]interface{}, len(active))
 				for i, s := range active {
 					if !s.hasScript {
